@@ -10,7 +10,7 @@ from pyvc.api import *
 from pyvc.values import _t
 from pyvc import smt, builtins as bi
 from pyvc.smt import V
-from pyvc.interp import Opaque
+from pyvc.interp import Opaque, PathEnd
 
 HJ = 'petl.transform.hashjoins.'
 has = z3.Function('lk_has', V, z3.BoolSort())
@@ -305,3 +305,48 @@ def view_dispatch(clsname, gen, side, lookup_attr, keyattr, argnames):
 view_dispatch('HashJoinView', 'iterhashjoin', 'right', 'rlookup', 'rkey', {'lookup': 'rlookup'})
 view_dispatch('HashLeftJoinView', 'iterhashleftjoin', 'right', 'rlookup', 'rkey', {'lookup': 'rlookup'})
 view_dispatch('HashRightJoinView', 'iterhashrightjoin', 'left', 'llookup', 'lkey', {'lookup': 'llookup'})
+
+
+CONFIGS = ((False, False), (True, False), (False, True))
+
+
+def header_task(fn_name, args_of, streamed):
+    """the output header of a hash join: the streamed/left fields then the other side's non-key fields; a side WITHOUT a prefix
+    keeps its field objects as they are (not stringified), a side with a prefix gets str(prefix) + str(field)"""
+    @vc('C07.%s.header' % fn_name, functions=[HJ + fn_name], props=['C07', 'C06'],
+        assumptions=['single key field given by name on both sides', 'the body of the probe loops is not judged here (C07.%s)' % fn_name])
+    def task(h):
+        for lp, rp in CONFIGS:
+            def body(ctx, lp=lp, rp=rp):
+                it = h.interp(ctx)
+                it.overapprox_filters = False
+                it.check_pulls = False
+                L, R = sym_table(ctx, 'L', nmin=1), sym_table(ctx, 'R', nmin=1)
+                rows_are_sequences(ctx, L); rows_are_sequences(ctx, R)
+                lprefix = sym_cell('lprefix') if lp else None
+                rprefix = sym_cell('rprefix') if rp else None
+
+                def first_yield(v, node):
+                    # the first thing a hash join yields is its header: judge it, then stop (the loops are judged by C07.<fn>)
+                    o = view_seq(v) if not isinstance(v, Seq) else v
+                    lh = src_row(L, 0)
+                    q = smt.fresh_int('q')
+                    ctx.oblige('%s: the header starts with the left fields' % fn_name, o.len >= lh.len)
+                    if not lp:
+                        ctx.oblige('%s: without lprefix the left field names are carried over AS THEY ARE (objects, not their text)' % fn_name,
+                                   z3.ForAll([q], z3.Implies(z3.And(0 <= q, q < lh.len), z3.Select(o.arr, q) == z3.Select(lh.arr, q))))
+                    if not rp:
+                        w = smt.fresh_int('w')
+                        rh = src_row(R, 0)
+                        ctx.oblige('%s: without rprefix every right field name in the header is one of the right table\'s field objects, as it is' % fn_name,
+                                   z3.ForAll([q], z3.Implies(z3.And(lh.len <= q, q < o.len), z3.Exists([w], z3.And(0 <= w, w < rh.len, z3.Select(o.arr, q) == z3.Select(rh.arr, w))))))
+                    raise PathEnd()
+                it.on_yield = first_yield
+                run_generator(it, closure_of(it, HJ + fn_name), args_of(L, R, SymLookup(), lprefix, rprefix))
+            h.explore(body)
+    return task
+
+
+header_task('iterhashjoin', lambda L, R, lk, lp, rp: [L, R, 'k', 'k', lk, lp, rp], 'left')
+header_task('iterhashleftjoin', lambda L, R, lk, lp, rp: [L, R, 'k', 'k', sym_cell('missing'), lk, lp, rp], 'left')
+header_task('iterhashrightjoin', lambda L, R, lk, lp, rp: [L, R, 'k', 'k', sym_cell('missing'), lk, lp, rp], 'right')
